@@ -18,7 +18,7 @@ theorem parseImportSpec_spec : T src Tr parseImportSpec (fun _ _ => True) := by
 theorem importLoop_spec : ∀ fuel acc, T src Tr (importLoop fuel acc) (fun _ _ => True) := by
   intro fuel
   induction fuel with
-  | zero => intro acc; unfold importLoop; exact T.throw _ rfl
+  | zero => intro acc; unfold importLoop; exact T.throw _ (fun _ _ => trivial)
   | succ n ih => intro acc; unfold importLoop; hloop ih
 
 theorem parseImportDecl_spec : T src Tr parseImportDecl (fun _ _ => True) := by
@@ -36,7 +36,7 @@ theorem parseDeclGeneric_go_spec {S : Type} (parseSpec : Nat → P S) (hs : ∀ 
     ∀ fuel index acc, T src Tr (parseDeclGeneric.go parseSpec fuel index acc) (fun _ _ => True) := by
   intro fuel
   induction fuel with
-  | zero => intro index acc; unfold parseDeclGeneric.go; exact T.throw _ rfl
+  | zero => intro index acc; unfold parseDeclGeneric.go; exact T.throw _ (fun _ _ => trivial)
   | succ n ih =>
     intro index acc
     unfold parseDeclGeneric.go
@@ -95,7 +95,7 @@ theorem typeBody_spec : T src Tr (typeBody r) (fun e _ => ExprOK e) := by
 theorem typeListBody_go_spec : ∀ fuel acc, T src Tr (typeListBody.go r fuel acc) (fun _ _ => True) := by
   intro fuel
   induction fuel with
-  | zero => intro acc; unfold typeListBody.go; exact T.throw _ rfl
+  | zero => intro acc; unfold typeListBody.go; exact T.throw _ (fun _ _ => trivial)
   | succ n ih => intro acc; unfold typeListBody.go; hloop ih
 
 theorem typeListBody_spec (strict : Bool) : T src Tr (typeListBody r strict) (fun _ _ => True) := by
@@ -115,7 +115,7 @@ theorem parseTypeParametersBody_go_spec : ∀ fuel acc extra,
     T src Tr (parseTypeParametersBody.go r fuel acc extra) (fun _ _ => True) := by
   intro fuel
   induction fuel with
-  | zero => intro acc extra; unfold parseTypeParametersBody.go; exact T.throw _ rfl
+  | zero => intro acc extra; unfold parseTypeParametersBody.go; exact T.throw _ (fun _ _ => trivial)
   | succ n ih => intro acc extra; unfold parseTypeParametersBody.go; hloop ih
 
 theorem parseTypeParametersBody_spec : T src Tr (parseTypeParametersBody r) (fun _ _ => True) := by
@@ -131,7 +131,7 @@ theorem funcTypeBody_spec : T src Tr (funcTypeBody r) (fun _ _ => True) := by
 theorem structTypeBody_go_spec : ∀ fuel acc, T src Tr (structTypeBody.go r fuel acc) (fun _ _ => True) := by
   intro fuel
   induction fuel with
-  | zero => intro acc; unfold structTypeBody.go; exact T.throw _ rfl
+  | zero => intro acc; unfold structTypeBody.go; exact T.throw _ (fun _ _ => trivial)
   | succ n ih => intro acc; unfold structTypeBody.go; hloop ih
 
 theorem structTypeBody_spec : T src Tr (structTypeBody r) (fun _ _ => True) := by
@@ -148,7 +148,7 @@ theorem parseTypeElemBody_go_spec : ∀ fuel typ, ExprOK typ →
     T src Tr (parseTypeElemBody.go r fuel typ) (fun e _ => ExprOK e) := by
   intro fuel
   induction fuel with
-  | zero => intro typ _; unfold parseTypeElemBody.go; exact T.throw _ rfl
+  | zero => intro typ _; unfold parseTypeElemBody.go; exact T.throw _ (fun _ _ => trivial)
   | succ n ih =>
     intro typ ht
     unfold parseTypeElemBody.go
@@ -182,7 +182,7 @@ theorem parseInterfaceTypeBody_go_spec : ∀ fuel acc,
     T src Tr (parseInterfaceTypeBody.go r fuel acc) (fun _ _ => True) := by
   intro fuel
   induction fuel with
-  | zero => intro acc; unfold parseInterfaceTypeBody.go; exact T.throw _ rfl
+  | zero => intro acc; unfold parseInterfaceTypeBody.go; exact T.throw _ (fun _ _ => trivial)
   | succ n ih => intro acc; unfold parseInterfaceTypeBody.go; hloop ih
 
 theorem parseInterfaceTypeBody_spec : T src Tr (parseInterfaceTypeBody r) (fun _ _ => True) := by
